@@ -105,11 +105,14 @@ def _merge_domain(src, prog):
         if extra:
             return False, "zip arguments are adapted by %s, which can reorder or drop classes" % ", ".join(extra)
         return whole, "zip over both whole `classes` arrays in order"
-    # range 0..Class::LEN
+    # range 0..Class::LEN or 0..classes.len()
     LEN = prog.crate("llfree").const("llfree::Class::LEN")
     for x in T.walk(src):
         if x[0] == "agg" and "Range" in x[1] and len(x[2]) == 2:
             lo, hi = T.const_val(x[2][0]), T.const_val(x[2][1])
+            h = T.strip_casts(x[2][1])
+            if lo == 0 and h[0] == "call" and h[1] == "slice::len" and any(y[0] == "f" and y[3] == "classes" for y in T.walk(h)):
+                return True, "range 0..classes.len()"
             return (lo == 0 and LEN is not None and hi == LEN), "range %s..%s (Class::LEN = %s)" % (lo, hi, LEN)
     return False, "unrecognised iteration domain " + T.show(src)[:120]
 
